@@ -7,8 +7,8 @@ From LC Require Import Base.Lib Gen.Editor_gen Model.Syllable Model.Composition 
 Import ListNotations.
 Open Scope nat_scope.
 
-Definition conv_single : conv_fn :=
-  fun c _ => map (fun i => mkIv i (S i) true [20013%N]) (seq 0 (clen c)).
+Definition conv_single {D : Type} : conv_fn D :=
+  fun _ _ c _ => map (fun i => mkIv i (S i) true [20013%N]) (seq 0 (clen c)).
 
 Definition key (code : N) (uni : N) : keyevent := mkKey code code uni false false false false.
 Definition empty_dict : memdict := mkMD [] [] [].
